@@ -375,6 +375,22 @@ def programs(rng, tier):
         progs.append(identity_prog(a, b))
     # (5) heavy sharing over 60..90 variables
     shared_programs(rng, P, progs, quick)
+    # (6) universe storms: the SAME decision nodes under different variable counts (only the two terminal records differ), counted
+    # one after the other inside one program (one worker thread): a count remembered from the previous call under a key that
+    # leaves the terminals out is off by a power of two; every counting entry point, also after a change back
+    for _ in range(60 if quick else 2000):
+        nv = rng.choice([2, 3, 4, 5, 6])
+        b = rand_operand(rng, nv, noncanon=0.0) if rng.random() < 0.7 else rng.choice(small[min(nv, 3)])
+        if len(b) < 3:
+            continue
+        top = max(n[0] for n in b[2:]) + 1
+        prog = []
+        for k in range(rng.choice([2, 3, 4])):
+            nv2 = top + rng.choice([0, 1, 2, 3, 5, 8, 60, 1000])
+            b2 = [(nv2, 0, 0), (nv2, 1, 1)] + list(b[2:])
+            for op in rng.sample(["exact_card", "exact_card", "card", "clause_card"], rng.choice([1, 2])):
+                prog.append(["u%d" % len(prog), op, bdd_sx(b2)])
+        progs.append(prog)
     return progs + P.progs
 
 
